@@ -110,7 +110,7 @@ def run_app(sc):
             spec = pending.pop(0) if pending else {"refuse": True}
             attempts_at.append(w.now)
             s = VSock(w, [(e[0], e[1]) + ((bytes.fromhex(e[2]),) if len(e) > 2 else ()) for e in spec.get("events", [])],
-                      status=spec.get("status"), tls_pending=bool(spec.get("tls")))
+                      status=spec.get("status"), tls_pending=bool(spec.get("tls")), pong_latency=spec.get("pong_latency"))
             s.spec = spec
             real_connect = None
 
